@@ -98,6 +98,8 @@ pub enum TOp {
   Unsub(usize),
   /// BehaviorSubject only
   Peek,
+  /// `unsubscribe()` on the subject itself (subject families only)
+  UnsubSubject,
 }
 
 #[derive(Clone, Debug, PartialEq, Eq, Hash)]
@@ -206,6 +208,14 @@ pub fn run_scen(s: &Scen, seed: u64, strategy: Strategy) -> Outcome {
               u.unsubscribe();
               log.mark(CALL + ti as u32, "unsub_ret", k as i64);
             }
+          }
+          TOp::UnsubSubject => {
+            log.mark(CALL + ti as u32, "term_call", 99);
+            match kind {
+              Kind::Behavior => beh.clone().unsubscribe(),
+              _ => hot[0].clone().unsubscribe(),
+            }
+            log.mark(CALL + ti as u32, "term_ret", 99);
           }
           TOp::Peek => {
             let v = Behavior::<V, E>::peek(&beh);
@@ -471,6 +481,7 @@ fn script(r: &mut Rng, n_hot: usize, allow_sub: bool, allow_term: bool, max: usi
       1 if allow_term => TOp::Error(r.below(n_hot)),
       2 if allow_sub => TOp::Subscribe,
       3 => TOp::Unsub(r.below(2)),
+      4 if allow_sub && allow_term && r.chance(1, 2) => TOp::UnsubSubject,
       _ => TOp::Next(r.below(n_hot)),
     })
     .collect()
@@ -660,3 +671,123 @@ pub fn schedule_once<S: Scheduler<OnceTask<(Log, u32), NormalReturn<()>>>>(s: &S
 }
 
 static _UNUSED: AtomicBool = AtomicBool::new(false);
+
+// ---------------------------------------------------------------------------
+// C19 thread part: a worker thread runs scheduled task bodies while another
+// thread cancels their handles
+// ---------------------------------------------------------------------------
+
+fn body_with_point((log, id): (Log, u32)) -> NormalReturn<()> {
+  log.mark(id, "run", 0);
+  conc::yield_now();
+  conc::yield_now();
+  log.mark(id, "run_end", 0);
+  NormalReturn::new(())
+}
+
+pub fn task_campaign(cfg: &Cfg, rep: &mut Report, n: usize) {
+  let mut rng = Rng::new(cfg.seed ^ 0xC19F);
+  for i in 0..n {
+    let mut r = rng.fork();
+    if !cfg.mine(i) {
+      continue;
+    }
+    let id = format!("thr:{}", i);
+    if !cfg.wants(&id) {
+      continue;
+    }
+    let ntasks = 1 + r.below(3);
+    let workers = 1 + r.below(2);
+    let strategy = strategy_for(&mut r);
+    let seed = r.next();
+    crate::vtime::reset();
+    let log = Log::new();
+    let pool = Pool::new();
+    let sched = pool.scheduler();
+    let handles: Vec<_> = (0..ntasks).map(|t| schedule_once(&sched, body_with_point, &log, 10 + t as u32)).collect();
+    let left = Arc::new(AtomicUsize::new(1));
+    let mut bodies: Vec<Box<dyn FnOnce() + Send>> = vec![];
+    {
+      let (log, left) = (log.clone(), left.clone());
+      let pre_yields = r.below(4);
+      bodies.push(Box::new(move || {
+        for _ in 0..pre_yields {
+          conc::yield_now();
+        }
+        for (t, h) in handles.into_iter().enumerate() {
+          log.mark(10 + t as u32, "cancel_call", 0);
+          h.unsubscribe();
+          log.mark(10 + t as u32, "cancel_ret", 0);
+          conc::yield_now();
+        }
+        left.fetch_sub(1, Ordering::SeqCst);
+      }));
+    }
+    for wi in 0..workers {
+      let (pool, left) = (pool.clone(), left.clone());
+      bodies.push(Box::new(move || {
+        let mut spins = 0;
+        let mut pick = wi;
+        loop {
+          pick = pick.wrapping_mul(31).wrapping_add(7);
+          let ran = pool.run_one(pick);
+          if !ran && left.load(Ordering::SeqCst) == 0 && pool.idle() {
+            break;
+          }
+          spins += 1;
+          if spins > 5_000 {
+            break;
+          }
+          conc::yield_now();
+        }
+      }));
+    }
+    rep.evaluations += 1;
+    let b = conc::baton_run(seed, strategy, bodies);
+    let evs = log.evs();
+    rep.count("thread_schedules", 1);
+    rep.count("thread_context_switches", b.switches);
+    rep.events += evs.len() as u64;
+    rep.distinct("distinct_thread_schedules", hash64(&(ntasks, workers, &b.trace)));
+    rep.set("thread_scenarios_covered", "worker_vs_canceller");
+    if b.timed_out || b.livelock {
+      rep.inconclusive.push(format!("{}: schedule abandoned", id));
+      continue;
+    }
+    let mut res: Option<(String, serde_json::Value)> = None;
+    if let Some(w) = &b.deadlock {
+      res = Some(("deadlock".into(), json!({"wait_for": format!("{:?}", w)})));
+    } else if let Some((t, p)) = b.panics.first() {
+      res = Some(("panic".into(), json!({"thread": t, "panic": p})));
+    } else {
+      for t in 0..ntasks as u32 {
+        let id = 10 + t;
+        let seq = |w: &str| evs.iter().find(|e| e.id == id && matches!(&e.k, K::Mark(x, _) if *x == w)).map(|e| e.seq);
+        let (run, end, cret) = (seq("run"), seq("run_end"), seq("cancel_ret"));
+        let runs = evs.iter().filter(|e| e.id == id && matches!(e.k, K::Mark("run", _))).count();
+        if runs > 1 {
+          res = Some(("ran_twice".into(), json!({"task": t})));
+        }
+        if let (Some(run), Some(cret)) = (run, cret) {
+          let cancelled_mid = run < cret;
+          if run > cret {
+            res = Some(("ran_after_cancel".into(), json!({"why": format!("task {} body started at stamp {} after unsubscribe() returned at {}", t, run, cret)})));
+          } else if end.map_or(true, |e| e > cret) {
+            res = Some(("still_running_after_cancel".into(), json!({"why": format!("task {} body was still running (end stamp {:?}) when unsubscribe() returned at {}", t, end, cret)})));
+          }
+          if cancelled_mid {
+            rep.count("cancellations_while_body_running_or_done", 1);
+          }
+        }
+      }
+    }
+    if b.switches > 0 {
+      rep.nontrivial.insert(hash64(&(ntasks, workers, &b.trace)));
+    }
+    if let Some((kind, detail)) = res {
+      rep.violation(&kind, "task_handle_threads", &id, json!({"tasks": ntasks, "workers": workers, "strategy": format!("{:?}", strategy),
+        "schedule": b.trace.iter().map(|t| t.to_string()).collect::<Vec<_>>().join(""), "result": detail,
+        "log": evs.iter().map(|e| format!("t{}#{}:{}:{:?}", e.thread, e.seq, e.id, e.k)).collect::<Vec<_>>()}));
+    }
+  }
+}
